@@ -203,6 +203,9 @@ def validate_trace_parallel(chk, module, cfg, lines, stage, jobs=8, chunk=400, e
         res = tlc.run(module, cfg, workers=1, env=e, timeout=3600, scratch=chk.scratch)
         done = res.marked("DONE")
         if not done or done[0][1] != len(part):
+            if os.environ.get("VERIF_DEBUG"):
+                shutil.copy(path, "/tmp/verif-debug-trace.ndjson")
+                open("/tmp/verif-debug-tlc.out", "w").write(res.out)
             raise tlc.TlcFailure("trace spec %s did not consume chunk %d:\n%s" % (module, i, res.out[-2500:]))
         return i, len(part), res, [r[1:] for r in res.marked("REJECT")]
     with ThreadPoolExecutor(max_workers=jobs) as ex:
